@@ -107,6 +107,16 @@ fn data_msg(piece: i128, total: i128, data: &[u8]) -> Vec<u8> {
 }
 
 fn noise(rng: &mut Rng) -> Vec<u8> {
+  // now and then an ordinary message of real-world size: the bitfield of a torrent with hundreds of thousands of pieces,
+  // a full block, an unknown extension with a long payload
+  if rng.chance(1, 12) {
+    let n = *rng.pick(&[1000usize, 16393, 32767, 32768, 32769, 40000, 100_000]);
+    return match rng.below(3) {
+      0 => frame(5, &vec![0xff; n]),
+      1 => frame(7, &vec![7; n]),
+      _ => ext(9, &vec![b'x'; n]),
+    };
+  }
   match rng.below(7) {
     0 => vec![0, 0, 0, 0],                    // keep-alive
     1 => frame(1, &[]),                       // unchoke
@@ -427,8 +437,21 @@ pub fn run(ctx: &Ctx) -> Report {
       v
     }
   };
-  let pool = rayon::ThreadPoolBuilder::new().num_threads(24).build().unwrap();
-  let obs: Vec<(Script, Obs)> = pool.install(|| scripts.into_par_iter().map(|s| { let o = observe(&s); (s, o) }).collect());
+  let obs: Vec<(Script, Obs)> = if let Ok(trace) = std::env::var("VH_TRACE_FILE") {
+    // the process died in an earlier run (an abort cannot be caught): one case at a time, each written down before it
+    // is executed, so that the caller finds the case that kills the process as the last line of the trace
+    use std::io::Write;
+    let mut f = std::fs::OpenOptions::new().create(true).append(true).open(trace).expect("trace file");
+    scripts.into_iter().map(|s| {
+      let _ = writeln!(f, "{}", s.to_json());
+      let _ = f.sync_data();
+      let o = observe(&s);
+      (s, o)
+    }).collect()
+  } else {
+    let pool = rayon::ThreadPoolBuilder::new().num_threads(24).build().unwrap();
+    pool.install(|| scripts.into_par_iter().map(|s| { let o = observe(&s); (s, o) }).collect())
+  };
   let mut model = Model::spawn(&ctx.vmodel);
   for (i, (s, o)) in obs.iter().enumerate() {
     let nontrivial = s.served.as_ref().map(|x| x.len() > PIECE).unwrap_or(true);
